@@ -473,6 +473,59 @@ func c13(c *Ctx) {
 	}
 	r.Stat("error_tests", nTests)
 
+	// ---- R9 list converters: for a variadic function a list is refused exactly when it is too short to cover the fixed
+	// parameters — every failing return taken under the variadic flag and under a test of len(list) is entailed
+	// len(list) <= len(types)-2 by the conditions that lead to it
+	nConv := 0
+	for _, f := range p.FuncsIn("arg") {
+		if f.Blocks == nil || errIndex(f.Signature) < 0 {
+			continue
+		}
+		var list, typs *ssa.Parameter
+		for _, pr := range f.Params {
+			if sl, ok := pr.Type().Underlying().(*types.Slice); ok {
+				if types.IsInterface(sl.Elem()) && !strings.HasSuffix(sl.Elem().String(), "reflect.Type") {
+					list = pr
+				}
+				if strings.HasSuffix(sl.Elem().String(), "reflect.Type") {
+					typs = pr
+				}
+			}
+		}
+		if list == nil || typs == nil {
+			continue
+		}
+		k := NewKeyer(f)
+		lenList := "len(" + k.Key(list) + ")"
+		lenTyps := "len(" + k.Key(typs) + ")"
+		for _, ret := range returnsOf(f) {
+			if isNilConst(retResult(ret, errIndex(f.Signature))) || !underVariadic(p, ret.Block()) {
+				continue
+			}
+			// only returns decided by a length test
+			mentions := false
+			for _, g := range guardsAt(ret.Block()) {
+				if bo, ok := g.Cond.(*ssa.BinOp); ok {
+					for _, side := range []ssa.Value{bo.X, bo.Y} {
+						if t := k.TermOf(side); t.Var == lenList {
+							mentions = true
+						}
+					}
+				}
+			}
+			if !mentions {
+				continue
+			}
+			nConv++
+			m := NewDBM()
+			guardsToDBM(m, k, ret.Block())
+			okShort := m.EntailsLE(Term{lenList, 2}, Term{lenTyps, 0})
+			r.Check(okShort, "C13.R9", "variadic list refused only when too short in "+shortName(f)+" at "+blockOrdinalRet(ret), p.Pos(posOf(ret)), "failure implies len(list) <= len(types)-2",
+				"for a variadic function the list converter refuses a list that covers all fixed parameters (and lets a too-short one through): well-formed When/Return calls fail, short ones index past the end")
+		}
+	}
+	r.Stat("variadic_count_checks", nConv)
+
 	// ---- R3/R4 erro types
 	ep := p.Pkg("erro")
 	if ep == nil {
